@@ -353,6 +353,44 @@ def run(ctx):
     harness, hsecs = vlib.build_harness("c20")
     mark("proof_and_builds")
 
+    def explore(lines, srcs, origin, tstat):
+        reported = [0]
+
+        def report(payload):
+            reported[0] += 1
+            if reported[0] <= 6:       # replay files for the first few; all are counted
+                ctx.violation(payload)
+
+        for line, s in zip(lines, srcs):
+            name, variant, stage, same, idem, changed = line.split(" ")
+            if stage == "BUILD-ERROR":
+                tstat["refused_error_packages"] += 1
+                continue
+            payload = {"origin": origin % (name, variant), "package_and_output": s, "impl": line}
+            if stage != "OK":
+                tstat["failed"] += 1
+                payload.update({"kind": "trim-failed", "what": "trim.Files did not get through: " + stage})
+                report(dict(payload))
+                continue
+            tstat["trimmed_ok"] += 1
+            tstat["changed_by_trim"] += changed == "1"
+            if same != "1":
+                tstat["value_changed"] += 1
+                payload.update({"kind": "trim-changed-the-evaluated-configuration", "triage_hint": same,
+                                "what": "final value (defaults resolved) of the trimmed package differs from the original's"})
+                report(dict(payload))
+            if idem in ("0", "B"):
+                tstat["not_idempotent"] += 1
+                payload.update({"kind": "trim-not-idempotent", "what": "trim(trim(x)) != trim(x) (code %s)" % idem})
+                report(dict(payload))
+            elif idem == "F":
+                tstat["known_f10"] += 1
+                ctx.known_finding(KNOWN_F10)
+
+    def new_tstat():
+        return {"inputs": 0, "trimmed_ok": 0, "changed_by_trim": 0, "refused_error_packages": 0, "value_changed": 0,
+                "not_idempotent": 0, "known_f10": 0, "failed": 0}
+
     st = Stats()
     if ctx.replay:
         rp = json.load(open(ctx.replay))
@@ -362,6 +400,19 @@ def run(ctx):
         text = re.sub(r"^\d+[^\n]*\n", "", text, count=1) if not text.startswith("--") else text
         with open(os.path.join(d, "in", "replay.txt"), "w") as f:
             f.write(text)
+        origin = rp.get("origin", "")
+        if origin.startswith("tools/trim/testdata") or origin.startswith("exploration"):
+            # outside CoreCUE: the direct checks only
+            vlib.run([harness, "--mode", "corpus", "--dir", os.path.join(d, "in"), "--out", d, "--nomut", "1"], timeout=600)
+            tl = open(os.path.join(d, "corpus.txt")).read().split("\n")[:-1]
+            tsrc = open(os.path.join(d, "corpus_src.txt")).read().split("### ")[1:]
+            ts = new_tstat()
+            explore(tl, tsrc, "replay of %s %s: " + origin, ts)
+            print("replay: " + " ".join(tl))
+            ctx.coverage.update({"obligations": proof["obligations"], "discharged": proof["discharged"],
+                                 "checker_cmd": proof["checker_cmd"], "trusted_base": TRUSTED, "evaluations": len(tl),
+                                 "distinct_nontrivial": 0, "samples": [], "replayed": ctx.replay, "replay_result": ts})
+            return
         vlib.run([harness, "--mode", "dir", "--dir", os.path.join(d, "in"), "--out", d], timeout=600)
         cases, impl, src = read_stream(d)
         model = run_model(exe, cases)
@@ -413,37 +464,6 @@ def run(ctx):
     mark("negative_controls_and_vm_compute")
 
     # 4. the repository's trim testdata with mutated literals: direct checks only (exploration)
-    def explore(lines, srcs, origin, tstat):
-        for line, s in zip(lines, srcs):
-            name, variant, stage, same, idem, changed = line.split(" ")
-            if stage == "BUILD-ERROR":
-                tstat["refused_error_packages"] += 1
-                continue
-            payload = {"origin": origin % (name, variant), "package_and_output": s, "impl": line}
-            if stage != "OK":
-                tstat["failed"] += 1
-                payload.update({"kind": "trim-failed", "what": "trim.Files did not get through: " + stage})
-                ctx.violation(payload)
-                continue
-            tstat["trimmed_ok"] += 1
-            tstat["changed_by_trim"] += changed == "1"
-            if same != "1":
-                tstat["value_changed"] += 1
-                payload.update({"kind": "trim-changed-the-evaluated-configuration", "triage_hint": same,
-                                "what": "final value (defaults resolved) of the trimmed package differs from the original's"})
-                ctx.violation(payload)
-            if idem in ("0", "B"):
-                tstat["not_idempotent"] += 1
-                payload.update({"kind": "trim-not-idempotent", "what": "trim(trim(x)) != trim(x) (code %s)" % idem})
-                ctx.violation(payload)
-            elif idem == "F":
-                tstat["known_f10"] += 1
-                ctx.known_finding(KNOWN_F10)
-
-    def new_tstat():
-        return {"inputs": 0, "trimmed_ok": 0, "changed_by_trim": 0, "refused_error_packages": 0, "value_changed": 0,
-                "not_idempotent": 0, "known_f10": 0, "failed": 0}
-
     d2 = os.path.join(ctx.work, "testdata")
     os.makedirs(d2, exist_ok=True)
     targs = [harness, "--mode", "corpus", "--dir", os.path.join(vlib.REPO, "tools", "trim", "testdata"), "--out", d2, "--maxmut", "1000"]
